@@ -55,19 +55,18 @@ theorem WF_update {H : Home} {d : Doc} {L : Int} (w : WF H d) (bd : Bounded d L)
 structure Fresh (h : Hist) : Prop where
   wf : ∃ H, WF H h.doc
   bd : Bounded h.doc h.lamport
-  tw : ∀ t, h.tw t = true → t.lamport ≤ h.lamport
   root : skel h.doc rootId = some false
 
 
 /-! ### depth 1, generic -/
 
 theorem undo_do_edit {H : Home} {h : Hist} {e : Edit} (w : WF H h.doc) (bd : Bounded h.doc h.lamport)
-    (root : skel h.doc rootId = some false) (g : GoodOp H h.tw h.doc (e.op h.next)) (fuel : Nat) :
+    (root : skel h.doc rootId = some false) (g : GoodOp H noTw h.doc (e.op h.next)) (fuel : Nat) :
     marshal (undo (doEdit h e)).doc fuel rootId = marshal h.doc fuel rootId :=
   undo_run_marshal w bd root [] [e] ⟨g, trivial⟩ (by have := maxDepth_pos; show 1 ≤ maxDepth; omega) fuel
 
 theorem redo_undo_do_edit {H : Home} {h : Hist} {e : Edit} (w : WF H h.doc) (bd : Bounded h.doc h.lamport)
-    (root : skel h.doc rootId = some false) (g : GoodOp H h.tw h.doc (e.op h.next)) (fuel : Nat) :
+    (root : skel h.doc rootId = some false) (g : GoodOp H noTw h.doc (e.op h.next)) (fuel : Nat) :
     marshal (redo (undo (doEdit h e))).doc fuel rootId = marshal (doEdit h e).doc fuel rootId :=
   redo_run_marshal w bd root [] [e] [] ⟨g, trivial⟩ (by have := maxDepth_pos; show 1 ≤ maxDepth; omega) fuel
 
@@ -131,14 +130,11 @@ theorem fresh_home {h : Hist} (fr : Fresh h) (p : Ticket) (k : String) :
   exact ⟨H.update h.next p k, WF_update w fr.bd (by simp only [Hist.next]; omega) p k,
     by simp [Home.update], by simp [Home.update]⟩
 
-theorem fresh_next {h : Hist} (fr : Fresh h) : h.doc h.next = none ∧ h.tw h.next = false := by
-  constructor
-  · cases hd : h.doc h.next with
-    | none => rfl
-    | some e => have := fr.bd.ent _ _ hd; simp only [Hist.next] at this; omega
-  · cases ht : h.tw h.next with
-    | false => rfl
-    | true => have := fr.tw _ ht; simp only [Hist.next] at this; omega
+theorem fresh_next {h : Hist} (fr : Fresh h) : h.doc h.next = none ∧ noTw h.next = false := by
+  refine ⟨?_, rfl⟩
+  cases hd : h.doc h.next with
+  | none => rfl
+  | some e => have := fr.bd.ent _ _ hd; simp only [Hist.next] at this; omega
 
 /-- the hypotheses of the depth-1 theorems hold again after a run of edits of the alphabet -/
 theorem fresh_run {H : Home} : ∀ (es : List Edit) (h : Hist), WF H h.doc → Fresh h → EditsOk H h es →
@@ -146,13 +142,8 @@ theorem fresh_run {H : Home} : ∀ (es : List Edit) (h : Hist), WF H h.doc → F
   | [], _, w, fr, _ => ⟨fr, w⟩
   | e :: es, h, w, fr, ok => by
     obtain ⟨r, _, _, hsk, i⟩ := inv_doEdit (e := e) (inv_init w fr.bd) ok.1
-    obtain ⟨htw, hlam, _⟩ := doEdit_tw_lamport (e := e) (inv_init w fr.bd) ok.1
     apply fresh_run es (doEdit h e) i.wf ?_ ok.2
-    refine ⟨⟨H, i.wf⟩, i.bd, ?_, (hsk rootId).trans fr.root⟩
-    intro t ht
-    rw [htw] at ht
-    have := fr.tw t ht
-    rw [hlam]; omega
+    exact ⟨⟨H, i.wf⟩, i.bd, (hsk rootId).trans fr.root⟩
 
 /-! ### decidable executability (for concrete runs) -/
 
@@ -251,7 +242,7 @@ theorem checkOp_good {H : Home} {tw : Ticket → Bool} {d : Doc} {op : UOp} (h :
 
 def checkRun (H : Home) : Hist → List Edit → Bool
   | _, [] => true
-  | h, e :: es => checkOp H h.tw h.doc (e.op h.next) && checkRun H (doEdit h e) es
+  | h, e :: es => checkOp H noTw h.doc (e.op h.next) && checkRun H (doEdit h e) es
 
 theorem checkRun_ok {H : Home} : ∀ {es : List Edit} {h : Hist}, checkRun H h es = true → EditsOk H h es
   | [], _, _ => trivial
@@ -332,25 +323,24 @@ theorem isLeafAt_some {d : Doc} {u : Ticket} (h : isLeafAt d u = true) : ∃ ue,
 
 /-- `Set` of a new leaf value on a free key or over a live leaf -/
 theorem good_set_of_fresh {h : Hist} (fr : Fresh h) {p : Ticket} {k : String} {v : Val}
-    (hp : isObj h.doc p = true) (horph : orphaned h.doc h.tw orphanFuel p = false)
+    (hp : isObj h.doc p = true) (horph : orphaned h.doc noTw orphanFuel p = false)
     (hv : leafBody v.body = true)
-    (hold : ∀ u, winner h.doc p k = some u → isLeafAt h.doc u = true ∧ h.tw u = false) :
-    ∃ H, WF H h.doc ∧ GoodOp H h.tw h.doc ((Edit.set p k v).op h.next) := by
+    (hold : ∀ u, winner h.doc p k = some u → isLeafAt h.doc u = true) :
+    ∃ H, WF H h.doc ∧ GoodOp H noTw h.doc ((Edit.set p k v).op h.next) := by
   obtain ⟨H, w, hkey, hpar⟩ := fresh_home fr p k
   obtain ⟨pe, keys, member, hd, hb, hw⟩ := isObj_winner hp k
   obtain ⟨hf, htw⟩ := fresh_next fr
   refine ⟨H, w, goodSet_new hd hb horph hv hkey hpar hf htw ?_⟩
   intro c hc
-  obtain ⟨h1, h2⟩ := hold c (hw ▸ hc)
-  exact ⟨isLeafAt_some h1, h2⟩
+  exact ⟨isLeafAt_some (hold c (hw ▸ hc)), rfl⟩
 
 theorem good_remove_of_fresh {h : Hist} (fr : Fresh h) {p u : Ticket} {k : String}
-    (hp : isObj h.doc p = true) (horph : orphaned h.doc h.tw orphanFuel p = false)
-    (hk : winner h.doc p k = some u) (hl : isLeafAt h.doc u = true) (htw : h.tw u = false) :
-    ∃ H, WF H h.doc ∧ GoodOp H h.tw h.doc ((Edit.remove p u).op h.next) := by
+    (hp : isObj h.doc p = true) (horph : orphaned h.doc noTw orphanFuel p = false)
+    (hk : winner h.doc p k = some u) (hl : isLeafAt h.doc u = true) :
+    ∃ H, WF H h.doc ∧ GoodOp H noTw h.doc ((Edit.remove p u).op h.next) := by
   obtain ⟨H, w⟩ := fr.wf
   obtain ⟨pe, keys, member, hd, hb, hw⟩ := isObj_winner hp k
   obtain ⟨ue, hu, hul⟩ := isLeafAt_some hl
-  exact ⟨H, w, goodRemove_of w hd hb horph (hw ▸ hk) hu hul htw⟩
+  exact ⟨H, w, goodRemove_of w hd hb horph (hw ▸ hk) hu hul rfl⟩
 
 end Yorkie.Undo
